@@ -1302,6 +1302,13 @@ func (r *Run) execMakeSlice(g *G, fr *Frame, x *ssa.MakeSlice) bool {
 			return false
 		}
 	}
+	if ct, ok := cp.(*Term); ok {
+		// cap >= 0 and len <= cap, as the runtime checks
+		okc := tAnd(tLeRaw(mkConst(big0, 64, true), ct), tLeRaw(lenTerm(ln), ct))
+		if !r.check(g, termToValue(okc), "makeslice: cap out of range", r.pos(fr, x)) {
+			return false
+		}
+	}
 	a := make([]Value, phys)
 	for i := range a {
 		a[i] = zero(el)
